@@ -181,7 +181,15 @@ def main(payload):
     res = []
     for c in payload["cases"]:
         try:
-            res.append(run_static(ffi, c) if c["kind"] == "static" else run_case(ffi, c))
+            if c["kind"] == "static":
+                res.append(run_static(ffi, c))
+            else:
+                # every sequence runs in its own forked child: memory corruption or a crash caused by
+                # one case cannot disturb the others and is attributed to that case
+                r = in_child(lambda: run_case(ffi, c))
+                if isinstance(r, list):
+                    r = dict(crash=r[1]) if r[0] == "crash" else dict(error="child raised %s" % r[1])
+                res.append(r)
         except Exception as e:
             res.append(dict(error="%s: %s" % (type(e).__name__, e)))
     return dict(results=res, sizes={t: ffi.sizeof(t) for t in payload["types"]})
